@@ -201,3 +201,36 @@ theorem transparent_iff (key : A → K) (f : A → B) :
 example : (run (fun p : Nat × Nat => p.1) (fun p => p.1 + p.2) [] [(4, 0), (4, 1)]).1 = [4, 4] := by decide
 
 end Gep.Memo
+
+/-! ### the cache of Model/Predict.lean is an instance of the general memo table -/
+namespace Gep.Pred.C12
+open Gep.Pred Gep.Memo
+
+variable {V W R A : Type}
+
+theorem cacheGet_eq_lookup (c : List (Nat × W)) (q : Nat) : cacheGet c q = Memo.lookup c q := by
+  induction c with
+  | nil => rfl
+  | cons kv r ih =>
+    obtain ⟨k, w⟩ := kv
+    by_cases h : k = q
+    · subst h; simp [cacheGet, Memo.lookup]
+    · have : (k == q) = false := by simpa using h
+      simp [cacheGet, Memo.lookup, this, h, ih]
+
+/-- the per-theory table of evolved coefficients of Model/Predict.lean IS a memo table in the sense of Model/Memo.lean,
+    keyed by Q² itself in front of `W0` -/
+theorem coeffs_is_memo_call (env : Env V W R (Point A)) (cache : List (Nat × W)) (q : Nat) :
+    coeffs env cache q = Memo.call (fun q => q) env.W0 cache q := by
+  unfold coeffs Memo.call
+  rw [cacheGet_eq_lookup]
+  cases Memo.lookup cache q <;> rfl
+
+/-- hence (instance of `run_pure`, whose hypothesis "the key determines the value" is trivially true for the identity
+    key): any history of look-ups on one theory object returns the tables the configuration implies -/
+theorem coeff_history_pure (env : Env V W R (Point A)) (qs : List Nat) :
+    (Memo.run (fun q => q) env.W0 [] qs).1 = qs.map env.W0 :=
+  (Memo.run_pure (fun q => q) env.W0 (fun _ _ h => by rw [h]) [] (by intro k b hm; cases hm) qs).1
+
+
+end Gep.Pred.C12
